@@ -41,12 +41,16 @@ LITS = ['a', ' ', '<', '>', '&', '&amp;', '"', "'", '$', '$$', '{', '}', '\n', '
 
 def gen_case(rng, allow_entity_in_expr):
     parts = []
+    ticking = rng.random() < .12       # the same (non-idempotent) expression text occurs several times in this template
     # (now and then a long flat template: a text template is one text node, however many expressions it holds)
     for _ in range(rng.randint(1, 8) if rng.random() > .004 else rng.randint(300, 700)):
         if rng.random() < .55:
             parts.append(('lit', ''.join(rng.choice(LITS) for _ in range(rng.randint(1, 4)))))
         else:
             e = exprs.gen_expr(rng)
+            if ticking and rng.random() < .6:
+                parts.append(('expr', rng.choice(['tick()', 'tick()', 'tick() ', 'tick() * 10'])))
+                continue
             if rng.random() < .2:
                 e = rng.choice(['o', 'h', 'by', 'nn', 'fl', 'uni', "d['q']", 'ss', 'ss'])
             if rng.random() < .15:
@@ -85,6 +89,7 @@ def admissible(parts):
 def build(parts, env, decode_entities=False):
     src = []
     exp = []
+    env['tick'].reset()
     for p in parts:
         if p[0] == 'lit':
             src.append(p[1])
@@ -121,6 +126,8 @@ def shape(parts):
 
 
 def render_real(cls, arg, env, **cfg):
+    if 'tick' in env:
+        env['tick'].reset()
     try:
         if cls.__name__ == 'PageTextTemplate':
             from vlib import routes, state
@@ -213,6 +220,26 @@ def run(ctx):
                         ctx.violation('file-variant:' + classify(parts, env, src, exp, gotb if isinstance(gotb, str) else gotb.decode(enc, 'replace')),
                                       'file text template (%s) %r returned %r, expected %r' % (label, src, gotb, want),
                                       {'kind': 'textfile', 'src': src, 'expected': exp, 'encoding': enc})
+                    elif done % 5 == 0 and isinstance(gotb, bytes) and 'by' not in src:
+                        # (byte VALUES are decoded with the same option: templates inserting one are left out here)
+                        # a long-lived template object whose encoding option is changed between renderings: every rendering is
+                        # encoded with the encoding the template has at that moment
+                        try:
+                            t = PageTextTemplateFile(fn, **cfg)
+                            env['tick'].reset()
+                            first = t(**env)
+                            steps = [('as constructed', first, want)]
+                            for enc2 in rng.sample(['utf-8', 'utf-16-le', 'utf-32-be', 'utf-8-sig'], 2):
+                                t.encoding = enc2
+                                env['tick'].reset()
+                                steps.append(('encoding = %r' % enc2, t(**env), exp.encode(enc2)))
+                        except Exception as e:
+                            steps = [('raised', '%s: %s' % (type(e).__name__, str(e)[:80]), None)]
+                        ctx.mon('encoding-changed-between-renderings')
+                        bad = [st for st in steps if st[1] != st[2]]
+                        if bad:
+                            ctx.violation('file-variant:encoding-history', 'file text template (%s) %r on one long-lived object: step %r returned %r, expected %r'
+                                          % (label, src, bad[0][0], bad[0][1], bad[0][2]), {'kind': 'textfile', 'src': src, 'expected': exp, 'encoding': enc})
     finally:
         shutil.rmtree(tmp, ignore_errors=True)
     layer_loader_formats(ctx, 8 if ctx.quick else 100)
